@@ -154,7 +154,7 @@ def run(rep, tier):
     vec, vecx = wd / "vectors.ndjson", wd / "ctx_vectors.ndjson"
     ev_rand, ev_ex, ev_rep = wd / "rand.ndjson", wd / "examples.ndjson", wd / "replay.ndjson"
     mutants = MUTANTS[:1] if quick else MUTANTS
-    ctx_mutants = CTX_MUTANTS[:1] if quick else CTX_MUTANTS
+    ctx_mutants = [] if quick else CTX_MUTANTS
     cls = {}
 
     def keyf(e):
